@@ -13,16 +13,16 @@ def _is_name(n, name):
     return isinstance(n, ast.Name) and n.id == name
 
 
-def check_table(w, rep):
+def check_table(w, rep, rule="C06.table"):
     sf = w.fe.get(REL)
     fn = w.fe.find_def(REL, "taylor_series_near_zero")
     # defaults
     names = [a.arg for a in fn.args.args]
     defaults = dict(zip(names[len(names) - len(fn.args.defaults):], fn.args.defaults))
     od, ed = defaults.get("order"), defaults.get("eps")
-    rep.check("C06.table", "taylor_series_near_zero default order = 6", isinstance(od, ast.Constant) and od.value == 6,
+    rep.check(rule, "taylor_series_near_zero default order = 6", isinstance(od, ast.Constant) and od.value == 6,
               "default series order is %s, the documented order is 6" % (ast.unparse(od) if od else "missing"), where=(REL, fn.lineno))
-    rep.check("C06.table", "taylor_series_near_zero default eps = 1e-3", isinstance(ed, ast.Constant) and ed.value == 1e-3,
+    rep.check(rule, "taylor_series_near_zero default eps = 1e-3", isinstance(ed, ast.Constant) and ed.value == 1e-3,
               "default switch threshold is %s, the documented threshold is 1e-3" % (ast.unparse(ed) if ed else "missing"), where=(REL, fn.lineno))
     # the returned Function is if_else(fabs(x) < eps, series(f), f) of the same f and x
     assigns = {}
@@ -35,13 +35,13 @@ def check_table(w, rep):
                     assigns.setdefault(t.elts[0].id, []).append((st.end_lineno, st.value))
     ite = [n for n in ast.walk(fn) if isinstance(n, ast.Call) and ast.unparse(n.func) in ("ca.if_else", "casadi.if_else", "if_else")]
     if len(ite) != 1 or len(ite[0].args) < 3:
-        rep.incomplete("C06.table", "taylor_series_near_zero switch", "expected exactly one if_else(cond, series, closed) in taylor_series_near_zero", where=(REL, fn.lineno))
+        rep.incomplete(rule, "taylor_series_near_zero switch", "expected exactly one if_else(cond, series, closed) in taylor_series_near_zero", where=(REL, fn.lineno))
     else:
         c, a, b = ite[0].args[:3]
         cond_ok = (isinstance(c, ast.Compare) and len(c.ops) == 1 and isinstance(c.ops[0], ast.Lt)
                    and isinstance(c.left, ast.Call) and ast.unparse(c.left.func) in ("ca.fabs", "casadi.fabs", "fabs")
                    and _is_name(c.comparators[0], "eps"))
-        rep.check("C06.table", "switch condition is fabs(x) < eps", cond_ok, "switch condition is %s" % ast.unparse(c), where=(REL, ite[0].lineno))
+        rep.check(rule, "switch condition is fabs(x) < eps", cond_ok, "switch condition is %s" % ast.unparse(c), where=(REL, ite[0].lineno))
         # a must come from f.series(x, 0, order).removeO(); b from f itself
         def origin(nm):
             # reaching definitions of nm at the if_else: the assignments that precede it (straight-line function)
@@ -52,12 +52,12 @@ def check_table(w, rep):
         ser_call = [n for n in ast.walk(fn) if isinstance(n, ast.Call) and isinstance(n.func, ast.Attribute) and n.func.attr == "series"]
         args_ok = bool(ser_call) and len(ser_call[0].args) == 3 and _is_name(ser_call[0].args[0], "x") and isinstance(ser_call[0].args[1], ast.Constant) \
             and ser_call[0].args[1].value == 0 and _is_name(ser_call[0].args[2], "order") and _is_name(ser_call[0].func.value, "f")
-        rep.check("C06.table", "series branch is f.series(x, 0, order).removeO() of the same f", ser_ok and args_ok,
+        rep.check(rule, "series branch is f.series(x, 0, order).removeO() of the same f", ser_ok and args_ok,
                   "the small-argument branch is not the order-`order` Taylor polynomial of f about 0 (%s)" % "; ".join(a_src), where=(REL, ite[0].lineno))
         closed_ok = any("sympy_to_casadi(f" in s.replace(" ", "") for s in b_src) and not any("series" in s for s in b_src)
-        rep.check("C06.table", "closed-form branch is f itself", closed_ok, "the large-argument branch is not f (%s)" % "; ".join(b_src), where=(REL, ite[0].lineno))
+        rep.check(rule, "closed-form branch is f itself", closed_ok, "the large-argument branch is not f (%s)" % "; ".join(b_src), where=(REL, ite[0].lineno))
         same_sym = all("symbols=symbols" in s.replace(" ", "") for s in a_src + b_src if "sympy_to_casadi" in s)
-        rep.check("C06.table", "both branches are converted with the same symbol table", same_sym, "series and closed form are converted with different symbol tables", where=(REL, ite[0].lineno))
+        rep.check(rule, "both branches are converted with the same symbol table", same_sym, "series and closed form are converted with different symbol tables", where=(REL, ite[0].lineno))
     # every entry: taylor_series_near_zero(u, f) with defaults
     n_ok = 0
     for e in w.series:
@@ -65,9 +65,9 @@ def check_table(w, rep):
         good = len(c.args) == 2 and _is_name(c.args[0], "u") and all(k.arg in ("verbose",) for k in c.keywords)
         if good:
             n_ok += 1
-            rep.ok("C06.table", "entry %r uses the default order and threshold on the table variable u" % e.key)
+            rep.ok(rule, "entry %r uses the default order and threshold on the table variable u" % e.key)
         else:
-            rep.fail("C06.table", "entry %r uses the default order and threshold on the table variable u" % e.key,
+            rep.fail(rule, "entry %r uses the default order and threshold on the table variable u" % e.key,
                      "entry overrides the series order/threshold or is not a function of u: %s" % ast.unparse(c)[:120], where=(REL, e.lineno))
     # squared table: x = sqrt(u)
     ds = w.fe.find_def(REL, "derive_series")
@@ -78,15 +78,15 @@ def check_table(w, rep):
             b2 = [s for s in st.orelse if isinstance(s, ast.Assign) and _is_name(s.targets[0], "x")]
             if b1 and b2:
                 sq_ok = ast.unparse(b1[0].value) in ("sympy.sqrt(u)", "sqrt(u)") and _is_name(b2[0].value, "u")
-    rep.check("C06.table", "squared table substitutes x = sqrt(u), plain table x = u", sq_ok, "derive_series does not substitute sqrt(u) for x in the squared table", where=(REL, ds.lineno))
+    rep.check(rule, "squared table substitutes x = sqrt(u), plain table x = u", sq_ok, "derive_series does not substitute sqrt(u) for x in the squared table", where=(REL, ds.lineno))
     mod = {ast.unparse(st.targets[0]): ast.unparse(st.value) for st in sf.tree.body if isinstance(st, ast.Assign) and len(st.targets) == 1}
-    rep.check("C06.table", "SERIES / SQUARED_SERIES are derive_series(False) / derive_series(True)",
+    rep.check(rule, "SERIES / SQUARED_SERIES are derive_series(False) / derive_series(True)",
               mod.get("SERIES", "").replace(" ", "") in ("derive_series(input_squared=False)", "derive_series(False)", "derive_series()") and
               mod.get("SQUARED_SERIES", "").replace(" ", "") in ("derive_series(input_squared=True)", "derive_series(True)"),
               "SERIES=%s SQUARED_SERIES=%s" % (mod.get("SERIES"), mod.get("SQUARED_SERIES")), where=(REL, 1))
     errs = w.stable.errors
-    rep.check("C06.table", "every table formula is readable as a closed form in x", not errs, "unreadable formulas: %s" % errs, where=(REL, ds.lineno))
-    rep.floor("C06.table", 18 + 6)
+    rep.check(rule, "every table formula is readable as a closed form in x", not errs, "unreadable formulas: %s" % errs, where=(REL, ds.lineno))
+    rep.floor(rule, 18 + 6)
 
 
 def identity_point(w, G, xp):
